@@ -55,6 +55,11 @@ type c04Case struct {
 	// HeaderFirst (streaming kinds): the client calls Header() before its first receive (as code that wants the
 	// response headers up front does); the receives that follow are judged as always
 	HeaderFirst bool `json:",omitempty"`
+	// SubOp (mode "sub-operation", all carriers): the handler gives up on a sub-operation of its own - a context
+	// derived from the call's that it cancels ("cancel") or that times out ("timeout") - and returns that
+	// context's error (plain, wrapped with %w, or as a status), while the caller's context is alive and has no
+	// deadline: the handler itself returned a context error, the caller sees the matching code
+	SubOp string `json:",omitempty"`
 	// PastDeadline (cancel mode, instant before the call): the context that was cancelled by hand also had a
 	// deadline, and that instant has meanwhile passed (a clean-up call made with a cancelled job context): it is a
 	// cancelled context - Canceled, not DeadlineExceeded
@@ -872,7 +877,93 @@ func c04ServerDeadline(c c04Case) *Outcome {
 	return o
 }
 
+// c04SubOp: see c04Case.SubOp.
+func c04SubOp(c c04Case) *Outcome {
+	o := &Outcome{NonTrivial: true}
+	o.class("carrier=%s/kind=%s", c.Carrier, c.Kind)
+	o.class("mode=sub-operation/%s/%s", c.SubOp, c.Attitude)
+	want := codes.Canceled
+	if c.SubOp == "timeout" {
+		want = codes.DeadlineExceeded
+	}
+	giveUp := func(hctx context.Context) error {
+		sub, cancel := context.WithCancel(hctx)
+		if c.SubOp == "timeout" {
+			cancel()
+			sub, cancel = context.WithTimeout(hctx, 50*time.Microsecond)
+		} else {
+			cancel()
+		}
+		defer cancel()
+		<-sub.Done()
+		switch c.Attitude {
+		case "return-status":
+			return status.FromContextError(sub.Err()).Err()
+		case "return-wrapped-ctx-err":
+			return fmt.Errorf("lookup backend %q: attempt 2: %w", "10.0.0.7:443", sub.Err())
+		}
+		return sub.Err()
+	}
+	svc := &Service{
+		Unary: func(hctx context.Context, req *pb.Message) (*pb.Message, error) { return nil, giveUp(hctx) },
+		Stream: func(kind string, stream grpc.ServerStream) error {
+			for stream.RecvMsg(new(pb.Message)) == nil {
+				if !clientStreaming(kind) {
+					break
+				}
+			}
+			for i := 0; i < c.NResp && serverStreaming(kind); i++ {
+				if err := stream.SendMsg(c04Resp(i)); err != nil {
+					return err
+				}
+			}
+			return giveUp(stream.Context())
+		},
+	}
+	car := newCarrier(c.Carrier, newServiceDesc(), svc, carrierOpts{})
+	defer car.Close()
+	var results []string
+	var final error
+	stall := guard("call", func() {
+		ctx, cancel := context.WithCancel(context.Background())
+		defer cancel()
+		if c.Kind == kUnary {
+			final = car.Conn.Invoke(ctx, mUnary, &pb.Message{}, new(pb.Message))
+			return
+		}
+		cs, err := car.Conn.NewStream(ctx, streamDescOf(c.Kind), methodOf(c.Kind))
+		if err != nil {
+			final = err
+			return
+		}
+		for i := 0; i < c.NReq; i++ {
+			cs.SendMsg(&pb.Message{Count: int32(i)})
+		}
+		cs.CloseSend()
+		for {
+			m := new(pb.Message)
+			if err := cs.RecvMsg(m); err != nil {
+				final = err
+				return
+			}
+			results = append(results, fmt.Sprint(m.Count))
+		}
+	})
+	o.Observed = map[string]interface{}{"final": errStr(final), "received": results}
+	if stall != "" {
+		return o.failf("%s/%s: handler gives up on a sub-operation (%s): %s", c.Carrier, c.Kind, c.SubOp, stall)
+	}
+	st, ok := status.FromError(final)
+	if final == nil || final == io.EOF || !ok || st.Code() != want {
+		return o.failf("%s/%s: the handler's sub-operation ended (%s) and the handler returned that context's error (%s) - the caller's context is alive, no deadline: caller got %s after %d messages, want a %v status", c.Carrier, c.Kind, c.SubOp, c.Attitude, errStr(final), len(results), want)
+	}
+	return o
+}
+
 func propC04(c c04Case) *Outcome {
+	if c.Mode == "sub-operation" {
+		return c04SubOp(c)
+	}
 	if c.Mode == "server-deadline" {
 		return c04ServerDeadline(c)
 	}
@@ -1000,6 +1091,13 @@ func genC04(t *rapid.T) c04Case {
 		c.OpenReq = clientStreaming(c.Kind) && rapid.Bool().Draw(t, "openreq")
 		return c
 	}
+	if rapid.IntRange(0, 19).Draw(t, "subop") == 0 {
+		c.Mode = "sub-operation"
+		c.SubOp = rapid.SampledFrom([]string{"cancel", "cancel", "timeout"}).Draw(t, "subopkind")
+		c.Attitude = rapid.SampledFrom([]string{"return-ctx-err", "return-status", "return-wrapped-ctx-err"}).Draw(t, "subopattitude")
+		c.NReq, c.NResp = rapid.IntRange(0, 2).Draw(t, "subopnreq"), rapid.IntRange(0, 2).Draw(t, "subopnresp")
+		return c
+	}
 	c.Mode = rapid.SampledFrom([]string{"cancel", "cancel", "deadline"}).Draw(t, "mode")
 	c.Attitude = rapid.SampledFrom([]string{"ignore", "ignore", "return-ctx-err", "return-wrapped-ctx-err", "block", "return-send-err"}).Draw(t, "attitude")
 	c.NReq = rapid.IntRange(0, 3).Draw(t, "nreq")
@@ -1079,6 +1177,7 @@ func init() { registerReplay("C04", propC04) }
 const c04Rule = "rapid-generated (thorough: exhaustive grid for scripts of <=2 messages per direction): carrier x RPC kind x {cancel, deadline (harness-owned context whose Done the harness closes)} x handler attitude (ignores its context, returns ctx.Err() when it notices, blocks on ctx.Done(), blocked in an extra RecvMsg) x placement of the instant: before the call, before each client step, synchronously at each handler step, at the in-process unary schedule points (server start, before each frame write, after each frame read, optionally holding the server until the client is past the instant; repeated 4..16 times because Go's select chooses randomly), at the k-th I/O call on the client's connection (HTTP); " +
 	"oracle: every receive/Invoke at or after the instant returns within 20 s with either the complete real result (next message of the model; io.EOF/nil only if the handler returned nil and everything incl. headers and trailers was delivered; the handler's own status) or a status error with code Canceled/DeadlineExceeded - never a non-status error, never success with missing data; repeated receives keep failing; the handler's context ends within the bound (in-process); a handler returning its context error gives the client the matching code; grpc-go arbitrates deviations at script-level placements; " +
 	"also generated since the seeded rounds: wrapped context errors, handlers returning their send error, iosplit placements (context ends inside a frame), mode server-deadline (a deadline 3..30 ms ahead that only the server's timer sees: handler returns its context's error, caller must get a DeadlineExceeded status), per-RPC credentials on the call at every placement, the per-method HTTP server form, and: a nil RecvMsg on a single-response stream implies the handler returned nil; " +
+	"mode sub-operation (all carriers and kinds): the handler gives up on a context of its own derived from the call's (cancelled, or timed out after 50 us) and returns that context's error plain, wrapped with %w in a message with colons, or as a status, the caller's context alive and without deadline: Canceled / DeadlineExceeded as a status; " +
 	"non-trivial = the instant fell inside the call; distinct by case hash"
 
 func TestC04(t *testing.T) {
